@@ -4,4 +4,4 @@ Require Extraction.
 Require Import ExtrOcamlBasic.
 From Algo.C04 Require Import Model Spec.
 Extraction Language OCaml.
-Extraction "model.ml" p_step p_init h_new check_pstep max_degree_z max_degree.
+Extraction "model.ml" p_step p_init h_new h_verify check_pstep max_degree_z max_degree.
